@@ -1,3 +1,5 @@
+import HcipyVerif.Model.FftIndex2
+
 /-!
 # C04 — executable bookkeeping of `FresnelPropagator` / `AngularSpectrumPropagator` (core Lean only)
 
@@ -253,6 +255,79 @@ at one sample, entries as lists. -/
 def mdot (n : Nat) (adjoint : Bool) (D v : List GRat) : List GRat :=
   let Dm := matOfList n D
   listOfVec (matVec (if adjoint then conjT GRat.conj Dm else Dm) (vecOfList n v))
+
+/-! ### The `FourierFilter._operation` pipeline itself (fourier_operations.py l.88-153), executable
+
+`f[:] = 0; f[cutout] = field` → `fftn` → multiply by the `ifftshift`ed transfer function → `ifftn` → `[cutout]`.
+Polymorphic in the scalar and in the DFT kernels (`Fft.dft2`, the specification of `fftn` shared with C01/C02):
+the driver op `filt` runs *these definitions* on Gaussian rationals with the exact kernels of the sizes 1, 2, 4
+(`gKerF`, `gKerB`: powers of `i`) and the harness compares the output with the real `FourierFilter.forward/backward`;
+at `ℂ` with the kernels `exp(∓2πi n/M)` they are the operator `filter (dftPair2 …) (cutoutEmb p h)` of the theorems
+(`filter_dft2_eq_filterP` in `Properties/C04.lean`). -/
+
+section pipeline
+variable {C : Type} [Zero C] [Add C] [Mul C]
+
+/-- `internal[:] = 0; internal[sy:sy+ny, sx:sx+nx] = f`. -/
+def padAt (sy sx ny nx : Nat) (f : Nat → Nat → C) (py px : Nat) : C :=
+  if (sy ≤ py ∧ py < sy + ny) ∧ (sx ≤ px ∧ px < sx + nx) then f (py - sy) (px - sx) else 0
+
+/-- `internal[sy:sy+ny, sx:sx+nx]`. -/
+def cropAt (sy sx : Nat) (a : Nat → Nat → C) (ky kx : Nat) : C := a (sy + ky) (sx + kx)
+
+/-- `np.fft.ifftshift(transfer_function)`: the array that multiplies FFT bin `(qy,qx)`, from the centred one. -/
+def shiftD (My Mx : Nat) (Dc : Nat → Nat → C) (qy qx : Nat) : C := Dc (ifftshiftIdx My qy) (ifftshiftIdx Mx qx)
+
+/-- `FourierFilter._operation`: `crop (scale · ifftn (D · fftn (pad x)))`; `D` in FFT layout, `scale = 1/(My·Mx)`,
+`kF*` / `kB*` the forward / inverse DFT kernels of the two axes. -/
+def filterN (My Mx : Nat) (kFy kFx kBy kBx : Int → C) (scale : C) (sy sx ny nx : Nat)
+    (D x : Nat → Nat → C) : Nat → Nat → C :=
+  cropAt sy sx fun qy qx => scale * Fft.dft2 My Mx kBy kBx
+    (fun py px => D py px * Fft.dft2 My Mx kFy kFx (padAt sy sx ny nx x) py px) qy qx
+
+/-- `FourierFilter.backward`: the same pipeline with the conjugated transfer function (`cj` = conjugation). -/
+def filterNBackward (cj : C → C) (My Mx : Nat) (kFy kFx kBy kBx : Int → C) (scale : C) (sy sx ny nx : Nat)
+    (D x : Nat → Nat → C) : Nat → Nat → C :=
+  filterN My Mx kFy kFx kBy kBx scale sy sx ny nx (fun py px => cj (D py px)) x
+
+/-- The pipeline with the sizes and the cut-out of the propagator / filter described by `p`. -/
+def filterP (p : Params) (kFy kFx kBy kBx : Int → C) (scale : C) (D x : Nat → Nat → C) : Nat → Nat → C :=
+  filterN (my p) (mx p) kFy kFx kBy kBx scale (cutStart (my p) p.ny) (cutStart (mx p) p.nx) p.ny p.nx D x
+
+def filterPBackward (cj : C → C) (p : Params) (kFy kFx kBy kBx : Int → C) (scale : C) (D x : Nat → Nat → C) :
+    Nat → Nat → C :=
+  filterNBackward cj (my p) (mx p) kFy kFx kBy kBx scale (cutStart (my p) p.ny) (cutStart (mx p) p.nx) p.ny p.nx D x
+
+end pipeline
+
+/-- `i^k` as a Gaussian rational. -/
+def gPowI (k : Int) : GRat :=
+  match (k % 4).toNat with
+  | 0 => ⟨1, 0⟩
+  | 1 => ⟨0, 1⟩
+  | 2 => ⟨-1, 0⟩
+  | _ => ⟨0, -1⟩
+
+/-- Inverse-DFT kernel `exp(+2πi n/M)` for `M ∣ 4` (exact: a power of `i`). -/
+def gKerB (M : Nat) (n : Int) : GRat := gPowI (n * ((4 / M : Nat) : Int))
+
+/-- Forward-DFT kernel `exp(-2πi n/M)` for `M ∣ 4`. -/
+def gKerF (M : Nat) (n : Int) : GRat := gPowI (-(n * ((4 / M : Nat) : Int)))
+
+/-- Row-major list (row length `w`) as an array (`0` beyond the end). -/
+def gratArr (w : Nat) (l : List GRat) : Nat → Nat → GRat := fun iy ix => l.getD (iy * w + ix) 0
+
+/-- What the driver op `filt` computes: `FourierFilter(grid, D, q).forward(x)` (`back = false`) or `.backward(x)`
+for the filter described by `p` (internal sizes in `{1,2,4}`), `D` the centred transfer function on the internal
+grid (row-major, `My·Mx` entries), `x` the input (row-major, `ny·nx` entries); output row-major. -/
+def filtOp (p : Params) (back : Bool) (D x : List GRat) : List GRat :=
+  let My := my p
+  let Mx := mx p
+  let sc : GRat := ⟨1 / ((My * Mx : Nat) : Rat), 0⟩
+  let Ds := shiftD My Mx (gratArr Mx D)
+  let r := if back then filterPBackward GRat.conj p (gKerF My) (gKerF Mx) (gKerB My) (gKerB Mx) sc Ds (gratArr p.nx x)
+           else filterP p (gKerF My) (gKerF Mx) (gKerB My) (gKerB Mx) sc Ds (gratArr p.nx x)
+  (List.range p.ny).flatMap fun iy => (List.range p.nx).map fun ix => r iy ix
 
 /-! ### One propagator object used repeatedly: the setters between calls
 
